@@ -395,9 +395,12 @@ macro_rules! rec_universe {
                 let cpd = CircuitProverData::new(pd, prim, npo);
                 let prover = BatchStarkProver::new(cfg).with_table_packing(packing.clone());
                 let proof = prover.prove_all_tables(&traces, &cpd).map_err(|e| format!("{e:?}"))?;
+                // `prove_all_tables` may reduce lanes and re-commit the preprocessed traces (fresh
+                // salts under a hiding MMCS): the data the proof was made against is
+                // `proof.stark_common`, which is also what the native verifier uses
                 let hc = cpd.common_data();
                 let common = CommonData::new(
-                    hc.preprocessed.as_ref().map(|g| p3_batch_stark::common::GlobalPreprocessed {
+                    proof.stark_common.preprocessed.as_ref().map(|g| p3_batch_stark::common::GlobalPreprocessed {
                         commitment: g.commitment.clone(),
                         instances: g.instances.clone(),
                         matrix_to_instance: g.matrix_to_instance.clone(),
